@@ -180,6 +180,10 @@ class FastNetNeuronCommunicator(FastSerialCommunicator):
             self.done_processing_msg_response()
             return
 
+        if node_id >= len(self.io_loop):
+            # e.g. a damaged node id: skipped like any malformed message
+            raise ValueError(f"I/O board response for node {node_id}, but only {len(self.io_loop)} boards are configured")
+
         name = self.io_loop[node_id]
         # Fp-I/O-3208-2 -> FP-I/O-3208
         model_string_from_config = ('-').join(self.config['io_loop'][name]['model'].split('-')[:3]).upper()
@@ -192,6 +196,9 @@ class FastNetNeuronCommunicator(FastSerialCommunicator):
         prior_drv = 0
 
         for i in range(node_id):
+            if i not in self.platform.io_boards:
+                # the first switch and driver numbers of this board depend on all boards before it in the loop
+                raise ValueError(f"I/O board response for node {node_id} before board {i} is known")
             prior_sw += self.platform.io_boards[i].switch_count
             prior_drv += self.platform.io_boards[i].driver_count
 
